@@ -186,9 +186,6 @@ fn collect_metrics(repo: &Path, cfg: &AnalyzeConfig) -> io::Result<RepositoryMet
         if let (Some(oid), Some(path)) = (parts.next(), parts.next()) {
             if blob_oids.contains(oid) && !path.is_empty() {
                 blob_path_map.insert(oid.to_string(), path.to_string());
-                if blob_path_map.len() >= blob_oids.len() {
-                    break;
-                }
             }
         }
         line_buf.clear();
